@@ -2,6 +2,9 @@
    (for the '-' id scheme of design_notes/C20_tag_id_fix.patch; the '_' scheme is refuted by witness). *)
 From Verif Require Import HtmlModel HtmlThm HtmlThmTree HtmlThmLinks HtmlThmLinksAll HtmlThmOk.
 Open Scope N_scope.
+(* the proofs below must not look into the regenerated separator: they are run in both states of the working tree *)
+Opaque nested_id_sep.
+Ltac nilr := repeat match goal with |- context [?l ++ @nil (list N)] => rewrite (app_nil_r l) end.
 
 (* ---------- strings ---------- *)
 Lemma split_first c a1 : forall a2 r1 r2,
@@ -79,6 +82,15 @@ Proof.
   apply Z.leb_le in A. apply Z.ltb_lt in B. apply Z.leb_le in C. apply Z.ltb_lt in D. lia.
 Qed.
 
+Definition dash_shape (t : tinfo) : str :=
+  (str_replace1 46 [45] (ti_full_name t) ++ 45 :: dec_of_Z (ti_major t)) ++ 45 :: dec_of_Z (ti_minor t).
+(* the only step that looks at the translated filter: in the '-' scheme it has this shape (vacuous in the '_' scheme) *)
+Lemma tag_id_shape : tag_id_dashed = true -> forall t, ti_is_array t = false -> filter_tag_id t = dash_shape t.
+Proof.
+  intros Hd. first [ discriminate Hd
+                   | (intros t Ht; unfold filter_tag_id, dash_shape; rewrite Ht; cbn [concat app]; rewrite !app_nil_r, <- !app_assoc; reflexivity) ].
+Qed.
+
 (* ---------- (1) filter_tag_id is injective ---------- *)
 Theorem tag_id_injective :
   tag_id_dashed = true ->
@@ -87,14 +99,9 @@ Theorem tag_id_injective :
     filter_tag_id t1 = filter_tag_id t2 ->
     ti_full_name t1 = ti_full_name t2 /\ ti_major t1 = ti_major t2 /\ ti_minor t1 = ti_minor t2.
 Proof.
-  intros Hd. first [discriminate Hd | clear Hd].
-  intros t1 t2 A1 A2 N1 N2 V1 V2 E.
+  intros Hd t1 t2 A1 A2 N1 N2 V1 V2 E.
   destruct (version_ok_spec _ V1) as [[Ma1 Ma1'] [Mi1 Mi1']]. destruct (version_ok_spec _ V2) as [[Ma2 Ma2'] [Mi2 Mi2']].
-  unfold filter_tag_id in E. rewrite A1, A2 in E. cbn [concat app] in E. rewrite !app_nil_r in E.
-  change ([45] ++ ?x) with (45 :: x) in E.
-  assert (E' : (str_replace1 46 [45] (ti_full_name t1) ++ 45 :: dec_of_Z (ti_major t1)) ++ 45 :: dec_of_Z (ti_minor t1)
-               = (str_replace1 46 [45] (ti_full_name t2) ++ 45 :: dec_of_Z (ti_major t2)) ++ 45 :: dec_of_Z (ti_minor t2))
-    by (rewrite <- !app_assoc; exact E).
+  rewrite (tag_id_shape Hd t1 A1), (tag_id_shape Hd t2 A2) in E. unfold dash_shape in E. rename E into E'.
   destruct (split_last 45 _ _ _ _ (digits_no_dash _ (dec_Z_digits _ Mi1)) (digits_no_dash _ (dec_Z_digits _ Mi2)) E') as [E1 Em].
   destruct (split_last 45 _ _ _ _ (digits_no_dash _ (dec_Z_digits _ Ma1)) (digits_no_dash _ (dec_Z_digits _ Ma2)) E1) as [En EM].
   split; [apply replace_dot_dash_inj; assumption|]. split; apply dec_Z_inj; (assumption || lia).
@@ -177,28 +184,30 @@ Lemma emit_ty_attrs_ids :
   /\ (forall a st, forallb (id_class L) (ids (snd (emit_attrs cf up st a))) = true).
 Proof.
   apply ty_attrs_ind.
-  - intros c a IHa st nm nested H. cbn [emit_ty]. cbv zeta. cbn [snd]. rewrite Hti. cbn [tx].
-    assert (Hid : id_class L (snd (if nested then filter_make_unique st (filter_tag_id (ci_t c) ++ nested_id_sep) else (st, filter_tag_id (ci_t c)))) = true).
-    { destruct nested; [apply class_nested|]. cbn [snd]. destruct (H eq_refl) as (c0 & a0 & E & Hin). injection E as <- _. unfold id_class. rewrite Hin. reflexivity. }
+  - intros c a IHa st nm nested H. cbn [emit_ty]. cbv zeta. cbn [snd].
+    assert (Hid : id_class L (tx (ae_ti cf) (snd (if nested then filter_make_unique st (filter_tag_id (ci_t c) ++ nested_id_sep) else (st, filter_tag_id (ci_t c))))) = true).
+    { rewrite Hti. cbn [tx]. destruct nested; [apply class_nested|]. cbn [snd]. destruct (H eq_refl) as (c0 & a0 & E & Hin). injection E as <- _. unfold id_class. rewrite Hin. reflexivity. }
     destruct nested;
       rewrite !vals_of_app, !vals_of_elem, !vals_of_app;
       rewrite (ids_opt (ci_port c)), !ids_if, ids_docp, ids_toggle by reflexivity;
-      change (attr_vals k_id [(k_class, dep_class false (ci_deprecated c))]) with (@nil str);
+      change (attr_vals k_id [(k_class, dep_class (ae_ti cf) (ci_deprecated c))]) with (@nil str);
       match goal with |- context [attr_vals k_id [(k_class, ?x); (k_id, ?y)]] =>
         change (attr_vals k_id [(k_class, x); (k_id, y)]) with [y] end;
-      cbn [app]; rewrite ?app_nil_r; rewrite ?vals_of_elem; cbn [app vals_of flat_map attr_vals]; rewrite ?app_nil_r;
+      cbn [app]; nilr; rewrite ?vals_of_elem; cbn [app vals_of flat_map attr_vals]; nilr;
       try change (str_eqb k_id k_href) with false; cbv iota; cbn [app];
       cbn [forallb]; rewrite Hid; cbn [andb]; rewrite ?forallb_app;
       repeat (apply andb_true_intro; split);
       first [ reflexivity | (destruct a; [reflexivity|exact (IHa _)|exact (IHa _)]) | idtac ].
   - intros es dep d e IHe st nm nested H. destruct nested; [|destruct (H eq_refl) as (c0 & a0 & E & _); discriminate E].
-    cbn [emit_ty]. cbv zeta. cbn [snd]. rewrite Hti. cbn [tx].
+    cbn [emit_ty]. cbv zeta. cbn [snd].
+    assert (Hid : id_class L (tx (ae_ti cf) (snd (filter_make_unique st (filter_tag_id (arr_tinfo es) ++ nested_id_sep)))) = true)
+      by (rewrite Hti; apply class_nested).
     rewrite !vals_of_app, !vals_of_elem, !vals_of_app.
     rewrite ids_toggle, (ids_tx_markup _ _ (ids_disp_type _)), ids_span.
-    change (attr_vals k_id [(k_class, dep_class false dep)]) with (@nil str).
+    change (attr_vals k_id [(k_class, dep_class (ae_ti cf) dep)]) with (@nil str).
     match goal with |- context [attr_vals k_id [(k_class, ?x); (k_id, ?y)]] => change (attr_vals k_id [(k_class, x); (k_id, y)]) with [y] end.
-    cbn [app vals_of flat_map]. rewrite ?app_nil_r. cbn [forallb]. rewrite class_nested. cbn [andb]. rewrite forallb_app.
-    apply andb_true_intro. split; [|reflexivity]. apply IHe. intros D. discriminate D.
+    cbn [app vals_of flat_map attr_vals]. nilr. cbn [forallb]. rewrite Hid. cbn [andb].
+    apply IHe. intros D. discriminate D.
   - intros s st nm nested H. destruct nested; [reflexivity|destruct (H eq_refl) as (c0 & a0 & E & _); discriminate E].
   - intros st. reflexivity.
   - intros nm doc t IHt rest IHr st. cbn [emit_attrs]. cbv zeta. cbn [snd]. rewrite !vals_of_app, ids_doc_docs. cbn [app]. rewrite forallb_app.
@@ -207,3 +216,144 @@ Proof.
     rewrite (ids_tx_markup _ _ (ids_disp_inst _)), ids_if by reflexivity. cbn [app]. apply IHr.
 Qed.
 End IdClass.
+
+Section IdClassPage.
+Variable cf : cfg.
+Hypothesis Hti : ae_ti cf = false.
+Hypothesis Hni : ae_ni cf = false.
+Hypothesis Hsb : ae_sb cf = false.
+Hypothesis Hsep : nested_id_sep = s_dash_n.
+Variable up : str.
+Variable L : list str.
+
+Lemma emit_types_ids_class ts : forallb (fun e => is_comp (snd e)) ts = true ->
+  (forall c, In c (listed ts) -> str_in (filter_tag_id (ci_t c)) L = true) ->
+  forall st, forallb (id_class L) (ids (snd (emit_types cf up st ts))) = true.
+Proof.
+  induction ts as [|[sn t] r IH]; intros Hc HL st; [reflexivity|]. cbn [forallb snd] in Hc. apply andb_prop in Hc as [Ht Hr].
+  unfold listed in HL. cbn [flat_map fst snd] in HL. fold (listed r) in HL. cbn [emit_types].
+  destruct (str_eqb sn namespace_doc_key); [apply IH; assumption|]. cbv zeta. cbn [snd]. rewrite vals_of_app, forallb_app.
+  apply andb_true_intro. split.
+  - apply (proj1 (emit_ty_attrs_ids cf Hti Hsep up L)). intros _. destruct t as [c a| |]; try discriminate Ht.
+    exists c, a. split; [reflexivity|]. apply HL. apply in_or_app. left. left. reflexivity.
+  - apply IH; [exact Hr|]. intros c Hc. apply HL, in_or_app. right. exact Hc.
+Qed.
+
+Lemma class_no_dash x : no_dash x = true -> id_class L x = true.
+Proof. intros H. unfold id_class. rewrite H, orb_true_r. reflexivity. Qed.
+Lemma class_sidebar x : id_class L (x ++ s_sidebar_sfx) = true.
+Proof. unfold id_class. rewrite ends_with_sfx, !orb_true_r. reflexivity. Qed.
+
+Lemma emit_ns_ids_class :
+  (forall n st, tops_ok n = true -> (forall c, In c (all_listed n) -> str_in (filter_tag_id (ci_t c)) L = true) ->
+                forallb (id_class L) (ids (snd (emit_ns cf up st n))) = true)
+  /\ (forall l st, tops_ok_l l = true -> (forall c, In c (all_listed_l l) -> str_in (filter_tag_id (ci_t c)) L = true) ->
+                   forallb (id_class L) (ids (snd (emit_nsl cf up st l))) = true).
+Proof.
+  apply nst_nsl_ind.
+  - intros name docs types subs IH st H HL. cbn [tops_ok] in H. apply andb_prop in H as [H Hs]. apply andb_prop in H as [Hn Ht].
+    cbn [all_listed] in HL. cbn [emit_ns]. cbv zeta. cbn [snd].
+    assert (Hid : id_class L (tx (ae_ni cf) (ns_id name)) = true) by (rewrite Hni; apply class_no_dash, no_dash_ns_id, Hn).
+    rewrite !vals_of_app, !vals_of_elem, !vals_of_app, ids_toggle.
+    change (attr_vals k_id [(k_class, s_fstitalic)]) with (@nil str).
+    match goal with |- context [attr_vals k_id [(k_class, ?x); (k_id, ?y)]] => change (attr_vals k_id [(k_class, x); (k_id, y)]) with [y] end.
+    cbn [app vals_of flat_map]. nilr. cbn [forallb]. rewrite Hid. cbn [andb]. rewrite !forallb_app.
+    apply andb_true_intro. split; [|apply andb_true_intro; split].
+    + destruct (filter_namespace_doc docs); reflexivity.
+    + apply emit_types_ids_class; [exact Ht|]. intros c Hc. apply HL, in_or_app. left. exact Hc.
+    + apply IH; [exact Hs|]. intros c Hc. apply HL, in_or_app. right. exact Hc.
+  - intros st _ _. reflexivity.
+  - intros n IHn r IHr st H HL. cbn [tops_ok_l] in H. apply andb_prop in H as [Hn Hr]. cbn [all_listed_l] in HL.
+    cbn [emit_nsl]. cbv zeta. cbn [snd]. rewrite vals_of_app, forallb_app. apply andb_true_intro.
+    split; [apply IHn|apply IHr]; try assumption; intros c Hc; apply HL, in_or_app; [left|right]; exact Hc.
+Qed.
+
+Lemma sidebar_types_ids_class ts : forallb (id_class L) (ids (sidebar_types cf ts)) = true.
+Proof.
+  induction ts as [|[sn t] r IH]; [reflexivity|]. cbn [sidebar_types]. rewrite vals_of_app, forallb_app, IH, andb_true_r.
+  destruct (str_eqb sn namespace_doc_key); [reflexivity|]. destruct (comp_info t) as [c|]; [|reflexivity].
+  rewrite !vals_of_elem.
+  match goal with |- context [attr_vals k_id [(k_id, ?x); (k_href, ?h); (k_class, ?y)]] =>
+    change (attr_vals k_id [(k_id, x); (k_href, h); (k_class, y)]) with [x] end.
+  match goal with |- context [attr_vals k_id [(k_class, ?x)]] => change (attr_vals k_id [(k_class, x)]) with (@nil str) end.
+  cbn [app vals_of flat_map forallb]. rewrite class_sidebar. reflexivity.
+Qed.
+
+Lemma emit_sidebar_ids_class :
+  (forall n, forallb (id_class L) (ids (emit_sidebar cf n)) = true) /\ (forall l, forallb (id_class L) (ids (emit_sidebar_l cf l)) = true).
+Proof.
+  apply nst_nsl_ind.
+  - intros name docs types subs IH. cbn [emit_sidebar]. cbv zeta.
+    rewrite !vals_of_app, !vals_of_elem, !vals_of_app, !vals_of_elem.
+    match goal with |- context [attr_vals k_id [(k_target, ?x); (k_onclick, ?y); (k_controls, ?z)]] =>
+      change (attr_vals k_id [(k_target, x); (k_onclick, y); (k_controls, z)]) with (@nil str) end.
+    match goal with |- context [attr_vals k_id [(k_href, ?h); (k_class, ?y)]] => change (attr_vals k_id [(k_href, h); (k_class, y)]) with (@nil str) end.
+    change (attr_vals k_id [(k_class, s_textnowrap)]) with (@nil str).
+    match goal with |- context [attr_vals k_id [(k_class, ?x); (k_id, ?y)]] => change (attr_vals k_id [(k_class, x); (k_id, y)]) with [y] end.
+    cbn [app vals_of flat_map]. nilr. cbn [forallb]. rewrite class_sidebar. cbn [andb]. rewrite !forallb_app.
+    apply andb_true_intro. split; [|apply andb_true_intro; split].
+    + destruct (filter_namespace_doc docs); reflexivity.
+    + apply sidebar_types_ids_class.
+    + apply IH.
+  - reflexivity.
+  - intros n IHn r IHr. cbn [emit_sidebar_l]. rewrite vals_of_app, forallb_app. apply andb_true_intro. split; [apply IHn|apply IHr].
+Qed.
+End IdClassPage.
+
+(* every id of a namespace page is the tag id of a type listed on the page, or contains no '-' (namespace ids, static ids),
+   or ends in _sidebar, or is a nesting occurrence X-n<k> *)
+Theorem page_ids_classified cf n :
+  ae_ti cf = false -> ae_ni cf = false -> ae_sb cf = false -> nested_id_sep = s_dash_n -> tops_ok n = true ->
+  forallb (id_class (map (fun c => filter_tag_id (ci_t c)) (all_listed n))) (page_ids cf n) = true.
+Proof.
+  intros Hti Hni Hsb Hsep Hok. unfold page_ids, ns_page, ns_page_sidebar, ns_page_main.
+  rewrite !vals_of_app, !vals_of_elem, !forallb_app.
+  change (attr_vals k_id [(k_id, s_sidebar)]) with [s_sidebar]. change (attr_vals k_id [(k_id, s_nsinfo)]) with [s_nsinfo].
+  change (attr_vals k_id []) with (@nil str). cbn [app forallb vals_of flat_map andb].
+  rewrite (class_no_dash _ s_sidebar eq_refl), (class_no_dash _ s_nsinfo eq_refl). cbn [andb].
+  apply andb_true_intro. split.
+  - apply (proj1 (emit_sidebar_ids_class cf _)).
+  - apply (proj1 (emit_ns_ids_class cf Hti Hni Hsep _ _)); [exact Hok|].
+    intros c Hc. apply str_in_spec, in_map_iff. exists c. split; [reflexivity|exact Hc].
+Qed.
+
+(* ---------- (3) a type's tag id is carried by nothing but the main element of a listed type with the same name and version ---------- *)
+Lemma dec_fuel_len f : forall n acc, (length acc <= length (dec_fuel f n acc))%nat.
+Proof.
+  induction f as [|f IH]; intros n acc; [apply le_n|]. cbn [dec_fuel]. destruct (n / 10 =? 0); [cbn; lia|].
+  etransitivity; [|apply IH]. cbn. lia.
+Qed.
+Lemma dec_Z_nonempty z : (0 <= z)%Z -> exists d r, rev (dec_of_Z z) = d :: r /\ is_digit d = true.
+Proof.
+  intros H. pose proof (dec_Z_digits z H) as D. rewrite <- forallb_rev in D.
+  destruct (rev (dec_of_Z z)) as [|d r] eqn:E.
+  - exfalso. apply (f_equal (@length N)) in E. rewrite rev_length in E. destruct z; [discriminate E| |lia].
+    cbn [dec_of_Z] in E. unfold dec_of_N in E. pose proof (dec_fuel_len (N.to_nat (N.log2 (N.pos p))) (N.pos p / 10) [48 + N.pos p mod 10]) as G.
+    cbn [dec_fuel] in E. destruct (N.pos p / 10 =? 0); [discriminate E|]. rewrite E in G. cbn in G. lia.
+  - exists d, r. split; [reflexivity|]. cbn in D. apply andb_prop in D as [D _]. exact D.
+Qed.
+
+Theorem type_anchor_exclusive cf n t :
+  tag_id_dashed = true ->
+  ae_ti cf = false -> ae_ni cf = false -> ae_sb cf = false -> nested_id_sep = s_dash_n -> tops_ok n = true ->
+  ti_is_array t = false -> version_ok t = true ->
+  In (filter_tag_id t) (page_ids cf n) ->
+  exists c, In c (all_listed n) /\ filter_tag_id (ci_t c) = filter_tag_id t.
+Proof.
+  intros Hd Hti Hni Hsb Hsep Hok Harr Hv Hin.
+  pose proof (page_ids_classified cf n Hti Hni Hsb Hsep Hok) as H. rewrite forallb_forall in H. specialize (H _ Hin).
+  destruct (version_ok_spec _ Hv) as [[Ma _] [Mi _]].
+  pose proof (tag_id_shape Hd t Harr) as Shape. unfold dash_shape in Shape.
+  destruct (dec_Z_nonempty _ Mi) as (d & r & Er & Hdg).
+  unfold id_class in H. rewrite Shape in H.
+  assert (N1 : no_dash ((str_replace1 46 [45] (ti_full_name t) ++ 45 :: dec_of_Z (ti_major t)) ++ 45 :: dec_of_Z (ti_minor t)) = false).
+  { unfold no_dash. rewrite forallb_app. cbn [forallb]. rewrite N.eqb_refl. cbn. apply andb_false_r. }
+  assert (N2 : ends_with ((str_replace1 46 [45] (ti_full_name t) ++ 45 :: dec_of_Z (ti_major t)) ++ 45 :: dec_of_Z (ti_minor t)) s_sidebar_sfx = false).
+  { unfold ends_with. rewrite rev_app_distr. cbn [rev]. rewrite <- app_assoc. rewrite Er. cbn [app rev s_sidebar_sfx starts_with].
+    unfold is_digit in Hdg. destruct (N.eqb_spec 114 d) as [<-|]; [discriminate Hdg|reflexivity]. }
+  assert (N3 : nested_shape ((str_replace1 46 [45] (ti_full_name t) ++ 45 :: dec_of_Z (ti_major t)) ++ 45 :: dec_of_Z (ti_minor t)) = false).
+  { unfold nested_shape. rewrite rev_app_distr. cbn [rev]. rewrite <- app_assoc.
+    rewrite (drop_while_pref_all is_digit _ _ (eq_trans (forallb_rev _ _) (dec_Z_digits _ Mi))). reflexivity. }
+  rewrite N1, N2, N3, !orb_false_r in H. apply str_in_spec, in_map_iff in H. destruct H as (c & E & Hc).
+  exists c. split; [exact Hc|]. rewrite E, Shape. reflexivity.
+Qed.
